@@ -1,5 +1,5 @@
 """C33 -- configuration safeguards are always applied."""
-from contracts import config
+from contracts import config, runs
 
 ID = "C33"
 LEVEL = "proof"
@@ -8,10 +8,12 @@ REPLAY = "replay/c33.py"
 
 def build(reg):
     config.register(reg, "C33")
+    runs.register(reg, "C33")
     return dict(
         targets=[f"{config.CFG}:MPSConfig.__init__", f"{config.CFG}:MPSConfig.__init__[autosave_dt=inf]",
                  f"{config.CFG}:MPSConfig.check_permutable_observables",
-                 f"{config.IMPL}:DMRGBackendImpl.__init__", f"{config.IMPL}:create_impl"],
+                 f"{config.IMPL}:DMRGBackendImpl.__init__", f"{config.IMPL}:create_impl",
+                 "emu_mps.mps_backend:MPSBackend.run"],
         not_decided=[],
         trusted=["pulser EmulationConfig.__init__ stores every keyword option in _backend_options and serves "
                  "attribute reads from it (A5)",
